@@ -416,30 +416,54 @@ Section Inv.
       eapply post_after; [exact P1|]. apply IH; [exact Hn2 | exact (post_pre _ _ _ P1)].
     Qed.
 
+    Lemma local_eval_post : forall es names locs s s1 rs,
+        forallb (chk_exp pb pt) es = true -> pre s ->
+        local_eval ce names locs es s = Ok (s1, rs) ->
+        post s s1 (fun k => asg_upto k (length (combine names locs)) es).
+    Proof.
+      induction es as [|e es IH]; intros names locs s s1 rs Hes Hs H.
+      - cbn [local_eval] in H. injection H as <- <-.
+        eapply post_weak; [apply post_refl; exact Hs | intros k Hk; discriminate].
+      - cbn [forallb] in Hes. apply andb_prop in Hes. destruct Hes as [He Hes].
+        cbn [local_eval] in H. inv_bind H. destruct a as [[s2 ofn] sub]. pose proof (Hce _ _ _ _ _ _ He Hs Hb) as P1.
+        destruct names as [|nm names].
+        { injection H as <- <-. eapply post_weak; [exact P1|]. intros k Hk. cbn in Hk. lia. }
+        destruct locs as [|l locs].
+        { injection H as <- <-. eapply post_weak; [exact P1|]. intros k Hk. cbn in Hk. lia. }
+        inv_bind H. destruct a as [s3 rs0]. injection H as <- <-.
+        pose proof (IH _ _ _ _ _ Hes (post_pre _ _ _ P1) Hb0) as P2.
+        eapply post_weak; [exact (post_seq _ _ _ _ _ P1 P2)|].
+        intros k Hk. cbn [combine length asg_upto] in Hk. exact Hk.
+    Qed.
+
+    Lemma local_adds_post : forall es names locs rs s s' rn rl flag,
+        forallb pb names = true -> pre s ->
+        local_adds names locs es rs s = (s', rn, rl, flag) -> post s s' nobody /\ forallb pb rn = true.
+    Proof.
+      induction es as [|e es IH]; intros names locs rs s s' rn rl flag Hn Hs H.
+      - cbn [local_adds] in H. injection H as <- <- <- <-. split; [apply post_refl; exact Hs|exact Hn].
+      - cbn [local_adds] in H.
+        destruct rs as [|[ofn sub] rs']; [injection H as <- <- <- <-; split; [apply post_refl; exact Hs|reflexivity]|].
+        destruct names as [|nm names]; [injection H as <- <- <- <-; split; [apply post_refl; exact Hs|reflexivity]|].
+        destruct locs as [|l locs]; [injection H as <- <- <- <-; split; [apply post_refl; exact Hs|reflexivity]|].
+        cbn [forallb] in Hn. apply andb_prop in Hn. destruct Hn as [Hn1 Hn2].
+        match type of H with context [local_adds _ _ _ _ (add_loc_var ?n ?v _)] =>
+          pose proof (add_loc_var_post n v s Hn1 Hs) as P2 end.
+        destruct (local_adds names locs es rs' _) as [[[s3 rn0] rl0] flag0] eqn:E.
+        injection H as <- <- <- <-.
+        destruct (IH _ _ _ _ _ _ _ _ Hn2 (post_pre _ _ _ P2) E) as [P3 Hrn]. split; [|exact Hrn].
+        eapply post_after; [exact P2|exact P3].
+    Qed.
+
     Lemma local_loop_post : forall es names locs s s' rn rl flag,
         forallb pb names = true -> forallb (chk_exp pb pt) es = true -> pre s ->
         local_loop ce names locs es s = Ok (s', rn, rl, flag) ->
         post s s' (fun k => asg_upto k (length (combine names locs)) es) /\ forallb pb rn = true.
     Proof.
-      induction es as [|e es IH]; intros names locs s s' rn rl flag Hn Hes Hs H.
-      - destruct names; cbn [local_loop] in H; injection H as <- <- <- <-;
-          (split; [eapply post_weak; [apply post_refl; exact Hs | intros k Hk; discriminate] | exact Hn]).
-      - cbn [forallb] in Hes. apply andb_prop in Hes. destruct Hes as [He Hes].
-        destruct names as [|nm names]; cbn [local_loop] in H.
-        + inv_bind H. destruct a as [[s1 ofn] sub]. pose proof (Hce _ _ _ _ _ _ He Hs Hb) as P1.
-          injection H as <- <- <- <-. split; [|reflexivity].
-          eapply post_weak; [exact P1|]. intros k Hk. cbn in Hk. lia.
-        + inv_bind H. destruct a as [[s1 ofn] sub]. pose proof (Hce _ _ _ _ _ _ He Hs Hb) as P1.
-          destruct locs as [|l locs].
-          * injection H as <- <- <- <-. split; [|reflexivity].
-            eapply post_weak; [exact P1|]. intros k Hk. cbn in Hk. lia.
-          * cbn [forallb] in Hn. apply andb_prop in Hn. destruct Hn as [Hn1 Hn2].
-            inv_bind H. destruct a as [[[s3 rn0] rl0] flag0]. injection H as <- <- <- <-.
-            match type of Hb0 with local_loop _ _ _ _ (add_loc_var ?n ?v _) = _ =>
-              pose proof (add_loc_var_post n v s1 Hn1 (post_pre _ _ _ P1)) as P2 end.
-            destruct (IH _ _ _ _ _ _ _ Hn2 Hes (post_pre _ _ _ P2) Hb0) as [P3 Hrn]. split; [|exact Hrn].
-            eapply post_weak; [exact (post_seq _ _ _ _ _ (post_then _ _ _ _ P1 P2) P3)|].
-            intros k Hk. cbn [combine length asg_upto] in Hk. exact Hk.
+      intros es names locs s s' rn rl flag Hn Hes Hs H. unfold local_loop in H. inv_bind H. destruct a as [s1 rs].
+      injection H as H. pose proof (local_eval_post _ _ _ _ _ _ Hes Hs Hb) as P1.
+      destruct (local_adds_post _ _ _ _ _ _ _ _ _ Hn (post_pre _ _ _ P1) H) as [P2 Hrn].
+      split; [exact (post_then _ _ _ _ P1 P2)|exact Hrn].
     Qed.
 
     Lemma cg_local_post : forall names locs es s s',
@@ -690,8 +714,8 @@ Section Inv.
           apply andb_prop in Hst. destruct Hst as [Hst He2]. apply andb_prop in Hst. destruct Hst as [Hnm He1].
           eapply scoped_post; [|exact Hs|exact H]. intros s0 s1 Hs0 H0. inv_bind H0. inv_bind H0. inv_bind H0.
           pose proof (Hnil _ _ _ _ _ He1 Hs0 Hb) as P1.
-          pose proof (Hnil _ _ _ _ _ He3 (post_pre _ _ _ P1) Hb0) as P2.
-          pose proof (Hnil _ _ _ _ _ He2 (post_pre _ _ _ P2) Hb1) as P3.
+          pose proof (Hnil _ _ _ _ _ He2 (post_pre _ _ _ P1) Hb0) as P2.
+          pose proof (Hnil _ _ _ _ _ He3 (post_pre _ _ _ P2) Hb1) as P3.
           match type of H0 with cg_block _ _ _ _ (add_loc_var ?nm ?v _) = _ =>
             pose proof (add_loc_var_post nm v _ Hnm (post_pre _ _ _ P3)) as P4 end.
           pose proof (Hblk1 _ _ _ Hblk (post_pre _ _ _ P4) H0) as P5.
